@@ -43,9 +43,94 @@ def sortCheck {α} (what : String) (lt : α → α → Bool) (idOf : α → Stri
        | none => s!"inv C19.{what}-order {b} out1={out1} out2={out2}")
     | none => "ok"
 
+/-! ### op `children`: the candidates a REAL parent queue offers (Queue.sortQueues + GetFairMaxResource) -/
+
+def jChild (j : Json) : Except String Child := do
+  pure { name := ← (fld j "name") >>= jStr, max := ← (fld j "max") >>= jORes, guaranteed := ← (fld j "guaranteed") >>= jORes,
+         allocated := ← (fld j "allocated") >>= jORes, pending := ← (fld j "pending") >>= jORes, prio := ← (fld j "prio") >>= jInt,
+         stopped := (← (fld j "state") >>= jStr) == "Stopped" }
+
+def jNamedORes (j : Json) : Except String (String × ORes) := do
+  let a ← jArr j
+  pure (← jStr a[0]!, ← jORes a[1]!)
+
+structure ChRun where
+  fair : Bool
+  prio : Bool
+  configured : Bool
+  outs : List (List String)
+
+def jChRun (j : Json) : Except String ChRun := do
+  pure { fair := ← (fld j "fair") >>= jBool, prio := ← (fld j "prio") >>= jBool, configured := ← (fld j "configured") >>= jBool,
+         outs := ← (fld j "outs") >>= jListOf jStrList }
+
+/-- one run of sortQueues on one tree: the offered SET always, the ORDER for every pair the own-key comparator distinguishes -/
+def childrenRunCheck (rootMax : ORes) (anc : List ORes) (present : List Child) (tree : Nat) (r : ChRun) : List String :=
+  let cands := offeredCands present
+  let want := sortStrs (cands.map (·.name))
+  let lt := ownLess rootMax anc r.fair r.prio
+  let share (c : Child) := fairShare c.allocated c.guaranteed (fairMaxOf rootMax anc c.max)
+  let tag := s!"tree={tree} fair={r.fair} prio={r.prio}"
+  r.outs.flatMap (fun out =>
+    if sortStrs out != want then [s!"C19.children-offered-set {tag} model={want} impl={out}"]
+    else
+      let bad := cands.findSome? (fun x => cands.findSome? (fun y => if lt x y && !before out x.name y.name then some (x, y) else none))
+      match bad with
+      | some (x, y) =>
+        -- the pending tie-break (a product order) is only reached inside a group of equal priority and equal share
+        let group := cands.filter (fun z => z.prio == x.prio && shareEq (share z) (share x))
+        if group.contains y && !isSWO lt group then
+          [s!"C19.queues-pending-tiebreak-not-weak-order {tag} {x.name}<{y.name} out={out}"]
+        else [s!"C19.children-own-fair-max {tag} {x.name}<{y.name} out={out}"]
+      | none =>
+        -- the model function itself, on the presentation the implementation returned (a sorted list is a fix point)
+        let byName := out.filterMap (fun n => present.find? (·.name == n))
+        let m := (offeredSorted rootMax anc r.fair r.prio (byName ++ present.filter (fun c => !out.contains c.name))).map (·.name)
+        if isSWO lt cands && m != out then [s!"diff children-order {tag} model={m} impl={out}"] else [])
+
+def childrenStep (j : Json) : Except String String := do
+  if (j.getObjVal? "panic").toOption.isSome then return "inv C19.children-panic"
+  let rootMax ← (fld j "rootMax") >>= jORes
+  let anc ← (fld j "anc") >>= jListOf jORes
+  let children ← (fld j "children") >>= jListOf jChild
+  let prioProp ← (fld (← fld j "spec") "prioProp") >>= jStr
+  let prioConfigured ← (fld j "prioConfigured") >>= jBool
+  let trees ← (fld j "trees") >>= jArr
+  let mut diffs : List String := []
+  let mut invs : List String := []
+  -- resetProperties: priority sorting is on unless the property says disabled
+  if prioConfigured != (prioProp != "disabled") then diffs := diffs ++ [s!"diff children-prio-configured prop={prioProp} impl={prioConfigured}"]
+  let mut ti := 0
+  for t in trees.toList do
+    let order ← (fld t "order") >>= jStrList
+    let fms ← (fld t "fairMax") >>= jListOf jNamedORes
+    let ranks ← (fld t "share") >>= jListOf jPairSN
+    let runs ← (fld t "runs") >>= jListOf jChRun
+    let present := order.filterMap (fun n => children.find? (·.name == n))
+    if present.length != order.length then throw "unknown child in tree"
+    let share (c : Child) := fairShare c.allocated c.guaranteed (fairMaxOf rootMax anc c.max)
+    for c in present do
+      let mfm := fairMaxOf rootMax anc c.max
+      match fms.lookup c.name with
+      | some ifm => if !oresEq mfm ifm then diffs := diffs ++ [s!"diff children-fairmax tree={ti} {c.name} model={showORes mfm} impl={showORes ifm}"]
+      | none => throw "fair max missing"
+      let mrank := (present.filter (fun d => shareLt (share d) (share c))).length
+      if ranks.lookup c.name != some mrank then
+        diffs := diffs ++ [s!"diff children-share tree={ti} {c.name} model={mrank} impl={ranks.lookup c.name}"]
+    for r in runs do
+      -- a parent queue sorts its children with the fair policy; the priority flag comes from the property
+      if r.configured && (!r.fair || r.prio != (prioProp != "disabled")) then diffs := diffs ++ ["diff children-configured-policy"]
+      invs := invs ++ childrenRunCheck rootMax anc present ti r
+    ti := ti + 1
+  match diffs, invs with
+  | d :: _, _ => pure d
+  | [], [] => pure "ok"
+  | [], l => pure ("inv " ++ " ;; ".intercalate (l.eraseDups.take 4))
+
 def sortStep (j : Json) : Except String String := do
   let kind ← (fld j "kind") >>= jStr
   match kind with
+  | "children" => childrenStep j
   | "queues" =>
     let cands ← (fld j "cands") >>= jListOf jQKey
     let in1 ← (fld j "in1") >>= jStrList
